@@ -431,12 +431,15 @@ pub fn run(tier: Tier) -> i32 {
         let parent = sys.cfg.peers[0].clone();
         let other = sys.cfg.peers[1].clone();
         let unacc = sys.cfg.peers[2].clone();
+        // another port of the parent's clock (same clockIdentity, other portNumber): not the parent port
+        let mut sibling = parent.clone();
+        sibling.pid.port = 2;
         // S1: one TLV: type x every even value length 0..1100 x sender
         let mut hists = vec![];
         let lens: Vec<usize> = if tier == Tier::Thorough || sys.name.contains("Daemon") { (0..=1100).step_by(2).collect() } else { (0..=1100).step_by(22).chain([950, 952, 954, 956, 958, 960]).collect() };
         for &ty in &types {
             for &l in &lens {
-                for (si, sender) in [&parent, &other, &unacc].iter().enumerate() {
+                for (si, sender) in [&parent, &other, &unacc, &sibling].iter().enumerate() {
                     if si > 0 && l % 50 != 0 && !(940..=964).contains(&l) {
                         continue;
                     }
@@ -489,6 +492,7 @@ pub fn run(tier: Tier) -> i32 {
             (&parent, vec![Tlv { typ: 0x8001, value: vec![5; 6] }, small.clone()]),
             (&other, vec![small.clone()]),
             (&parent, vec![Tlv { typ: 0x4000, value: vec![] }]),
+            (&sibling, vec![Tlv { typ: 0x4001, value: vec![6; 8] }]),
         ];
         for q in 1..n {
             alphabet.push(vec![Ev::T(q, Timer::Announce)]);
